@@ -16,14 +16,14 @@ def seq_dtor {α : Type} (matchers0 retired0 : List α) : Option (Sev × List (T
   let mut os : List (Tok α) := []
   for m in matchers do
     if (!touched) then
-      os := os ++ [Tok.lit "Sequence expectations not met at destruction of sequence object \"", Tok.seqName, Tok.lit "\":"]
+      os := os ++ [Tok.key "teardown", Tok.seqName, Tok.text]
       touched := true
-    os := os ++ [Tok.lit "\n  missing "]
+    os := os ++ [Tok.key "missing"]
     os := os ++ [Tok.expectation m]
     matchers := matchers.tail
   retired_matchers := []
   if touched then
-    os := os ++ [Tok.lit "\n"]
+    os := os ++ [Tok.text]
     report := some (Sev.nonfatal, os)
   return (report, matchers, retired_matchers)
 
